@@ -133,7 +133,9 @@ def gen_one(rng, tier):
             'chains': chains,
             # value-like listeners: distinct listeners that compare and hash
             # equal ('unhashable': __eq__ without __hash__)
-            'eq': rng.choice([None] * 7 + ['equal', 'equal', 'unhashable'])}
+            # ('falsy', 'empty': listeners that evaluate false)
+            'eq': rng.choice([None] * 7 + ['equal', 'equal', 'unhashable',
+                                           'falsy', 'empty'])}
 
 
 def gen_cases(tier, seed):
@@ -207,7 +209,13 @@ def run_case(case):
                         nested.append((target, cprop, getattr(t2, cprop),
                                        inner))
             ns[EVENTS[prop]] = cb
-        if case.get('eq'):
+        if case.get('eq') == 'falsy':
+            ns['__bool__'] = lambda self: False
+            res.tags['value_like_listeners'].add('falsy')
+        elif case.get('eq') == 'empty':
+            ns['__len__'] = lambda self: 0
+            res.tags['value_like_listeners'].add('falsy')
+        elif case.get('eq'):
             ns['__eq__'] = lambda self, other: hasattr(other, 'uid')
             ns['__hash__'] = (lambda self: 5) if case['eq'] == 'equal' \
                 else None
